@@ -594,6 +594,8 @@ func main() {
 		partAnypb(a)
 	case "exchange":
 		partExchange(a)
+	case "exchange2":
+		partExchange2(a)
 	default:
 		vh.Fatal("unknown scenario %q", name)
 	}
